@@ -62,8 +62,8 @@ theorem C15_validates_like_flat (env : Env) (name : String) (d : ClassDecl) (ds 
 /-- … and serializes exactly like it -/
 theorem C15_serializes_like_flat (defs : List (String × Elem)) (name : String) (d : ClassDecl) (ds : List ClassDecl)
     (hd : keysDistinct d.props) :
-    serElem defs ((ds.foldl inherit (inherit Cfg.object d)).toElem name) =
-    serElem defs ((inherit Cfg.object (ds.foldl ClassDecl.andThen d)).toElem name) := by
+    serElem none defs ((ds.foldl inherit (inherit Cfg.object d)).toElem name) =
+    serElem none defs ((inherit Cfg.object (ds.foldl ClassDecl.andThen d)).toElem name) := by
   rw [chain_flat _ d ds hd]
 
 /-- what "merged" means, keyword by keyword: the child's argument where passed, else the parent's -/
@@ -393,8 +393,8 @@ theorem reachable_inv (ops : List Op) : Inv (run World.init ops) := run_inv _ _ 
 /-- and therefore so does its view as an element tree: verdicts and serialization of `c` are unchanged -/
 theorem C15_parent_behaviour_untouched (ops₀ ops : List Op) (c : Nat) (hc : c < (run World.init ops₀).classes.length)
     (hops : ∀ op ∈ ops, op.target ≠ some c) (env : Env) (a : Arg) (defs : List (String × Elem)) :
-    ((run (run World.init ops₀) ops).viewElem c).map (fun e => (e.call env a, serElem defs e)) =
-    ((run World.init ops₀).viewElem c).map (fun e => (e.call env a, serElem defs e)) := by
+    ((run (run World.init ops₀) ops).viewElem c).map (fun e => (e.call env a, serElem none defs e)) =
+    ((run World.init ops₀).viewElem c).map (fun e => (e.call env a, serElem none defs e)) := by
   unfold World.viewElem
   rw [C15_parent_untouched _ ops c (reachable_inv ops₀) hc hops]
 
